@@ -520,8 +520,10 @@ theorem ieee_cumsum_monotone {α : Type} [Field α] [LinearOrder α] [IsStrictOr
   obtain ⟨hm, hfix⟩ := nearest_rounding_monotone F rnd hF hnear
   exact rounded_cumsum_monotone 0 (· + ·) rnd F (fun a s ha => le_add_of_nonneg_left ha) hm hfix hF s1 n s2 out hR hout
 
-example : (∀ a : ℚ, (fun q : ℚ => q = q) (id a)) ∧ (∀ a f : ℚ, f = f → |a - id a| ≤ |a - f|) :=
-  ⟨fun _ => rfl, fun a f _ => by simp⟩
+/-- non-vacuity: exact arithmetic is the rounding with every number representable; increments `p % 3` -/
+example : (∀ a : ℚ, (fun _ : ℚ => True) (id a)) ∧ (∀ a f : ℚ, True → |a - id a| ≤ |a - f|) ∧
+    (∀ p, p < 2 * 3 * 2 → (0 : ℚ) ≤ (fun p : Nat => ((p % 3 : Nat) : ℚ)) p) :=
+  ⟨fun _ => trivial, fun a f _ => by simp, fun p _ => by positivity⟩
 
 /-- **The tail of `glamfit_complex` for a monotonic fit** (`backTransform`: scale the normalised solution back in double,
 convert to float, cumulative sum in float), for every shape and every solver output `x ≥ 0` (which
@@ -553,6 +555,11 @@ theorem cumsum_diff_inverse {α : Type} [AddCommGroup α] (s1 n s2 : Nat) (c t :
     (∀ p, p < s1 * n * s2 → cumsumLoop (· + ·) s1 n s2 (diffAlong (· - ·) n s2 c) p = c p) ∧
     (∀ p, p < s1 * n * s2 → diffAlong (· - ·) n s2 (cumsumLoop (· + ·) s1 n s2 t) p = t p) :=
   ⟨fun _ hp => cumsum_diffAlong s1 n s2 c hp, fun _ hp => diffAlong_cumsum s1 n s2 t hp⟩
+
+-- (`cumsum_diff_inverse` has no hypotheses; a concrete instance on a 2 × 3 × 2 box:)
+example : (List.range 12).all (fun p =>
+    diffAlong (· - ·) 3 2 (cumsumLoop (· + ·) 2 3 2 (fun q : Nat => ((7 * q % 5 : Nat) : Int))) p == ((7 * p % 5 : Nat) : Int)) = true := by
+  decide
 
 /-- **Tables with non-negative increments = non-negative first slice + non-decreasing along the monotonic index**; so
 the image of the non-negative orthant under the change of variables is exactly the set of tables the property describes,
@@ -595,6 +602,17 @@ theorem spline_value_monotone_1d (d : Dim Rat) (x y : Rat) (hwf : d.WF)
   obtain ⟨mx, hbx, hox⟩ := selInd_brk d x hwf.mono hlo (le_trans hxy hhi) hlt
   obtain ⟨my, hby, _⟩ := selInd_brk d y hwf.mono (le_trans hlo hxy) hhi hlt
   exact spline1d_mono hwf.mono hbx hby hxy (selInd_brk_le d x y hwf.mono hbx hby hxy) d.order hox c hc
+
+/-- Non-vacuity of the 1-d statement: order 2, knots `0..6`, 4 coefficients `c j = j`, from `x = 5/2` to `y = 7/2`
+inside the supported region `[2, 4]`. -/
+example : ∑ j ∈ range 4, ((j : Nat) : Rat) * Bsel (⟨2, 7, 4, 1, fun i => (i : Rat)⟩ : Dim Rat) (5/2) 0 j
+    ≤ ∑ j ∈ range 4, ((j : Nat) : Rat) * Bsel (⟨2, 7, 4, 1, fun i => (i : Rat)⟩ : Dim Rat) (7/2) 0 j :=
+  spline_value_monotone_1d (⟨2, 7, 4, 1, fun i => (i : Rat)⟩ : Dim Rat) (5/2) (7/2)
+    ⟨fun a b h => by show ((a : Int) : Rat) ≤ ((b : Int) : Rat); exact_mod_cast h, rfl⟩
+    (by show ((((2 : Nat) : Int)) : Rat) ≤ 5/2; norm_num) (by norm_num)
+    (by show (7/2 : Rat) ≤ ((((4 : Nat) : Int)) : Rat); norm_num)
+    (by show ((((2 : Nat) : Int)) : Rat) < ((((4 : Nat) : Int)) : Rat); norm_num)
+    (fun j => (j : Rat)) (fun j _ => by push_cast; linarith)
 
 /-- **C10, the surface itself**: if the coefficients are non-decreasing along dimension `m`, then moving the `m`-th
 coordinate from `xm` up to `ym` inside the fully supported region of that dimension (all other coordinates fixed,
@@ -697,6 +715,18 @@ example : specEval
     show (((idx3 _ _ i j k : Nat) : Int) : Rat) ≤ (((idx3 _ _ i (j+1) k : Nat) : Int) : Rat)
     rw [idx3_succ]
     exact_mod_cast Nat.le_add_right _ _
+
+/-- Non-vacuity of the `_B` form: the executable hypothesis holds for that table (`stride1 = 2`, `n = 3`, `stride2 = 3`). -/
+example : monoAlongB (fun a b : Rat => decide (a ≤ b)) 2 3 3 (fun p => ((p : Nat) : Rat)) = true := by decide +kernel
+
+/-- Non-vacuity of the end-to-end form: solver output `x p = p % 2` in `Nat` (`zd = 0`), scaling by 3, conversion `Nat → ℚ`,
+exact addition; the table `T.coef = backTransform …` satisfies `hT` by definition. -/
+example : (∀ a : Nat, 0 ≤ a → 0 ≤ 3 * a) ∧ (∀ a : Nat, 0 ≤ a → (0 : Rat) ≤ (a : Rat)) ∧
+    (∀ a s : Rat, 0 ≤ a → s ≤ a + s) ∧ (∀ p, p < 2 * 3 * 3 → 0 ≤ (fun p : Nat => p % 2) p) ∧
+    (∀ p : Nat, (fun q : Int => backTransform (fun a : Nat => 3 * a) (fun a => (a : Rat)) (· + ·) 2 3 3 (fun p => p % 2) q.toNat) (p : Nat)
+      = backTransform (fun a : Nat => 3 * a) (fun a => (a : Rat)) (· + ·) 2 3 3 (fun p => p % 2) p) :=
+  ⟨fun _ _ => Nat.zero_le _, fun a _ => Nat.cast_nonneg a, fun a s h => le_add_of_nonneg_left h, fun _ _ => Nat.zero_le _,
+   fun p => by simp⟩
 
 /-! ## 10. the inactive-constraint clause, for the same objective -/
 
